@@ -653,7 +653,7 @@ func firstLineErr(e error) string {
 func init() {
 	mc.Register(&mc.Check{
 		Prop:        "C15",
-		Rule:        "fault sequences: 9 dependency shapes (chain, diamond, group consumer, In-struct with key/optional, optional-but-registered dependencies, an optional-but-registered dependency whose own group members / keyed dependencies / their dependencies fail, two-output producer, interface-typed producer, result-object producer with an error return) x 5 lifetime patterns x every registration x invocation 1..3 x {returns error, returns nil, panics with string / error / struct / nil} (thorough: additionally every PAIR of fault positions with invocation <=2 x {error, panic}^2); each execution: Build, scope, three attempts at the root service, a second scope, Close; oracle: no panic escapes, an error fault is reachable with errors.As (same pointer), a panic fault is a ConstructorPanicError carrying the value, retries without a pending fault succeed, lifetime / wiring / disposal oracles hold (nothing half-built is cached, nothing successfully built is rebuilt or leaked). API inputs: ~1,000 calls of every exported entry point with nil / typed-nil / zero / unregistered / mismatched / invalid arguments must not panic; Must* helpers panic iff the plain call errs. Schedules: a resolution overlapping Close(scope|provider) whose late instance fails its own Close - the returned error must still satisfy errors.Is(disposed) (bound 2/3). Error classes: 30 routes through Build / resolution / registration / module wrappers must be recognisable with errors.Is/As. distinct = canonical observation strings.",
+		Rule:        "fault sequences: 9 dependency shapes (chain, diamond, group consumer, In-struct with key/optional, optional-but-registered dependencies, an optional-but-registered dependency whose own group members / keyed dependencies / their dependencies fail, two-output producer, interface-typed producer, result-object producer with an error return) x 5 lifetime patterns x every registration x invocation 1..3 x {returns error, returns nil, panics with string / error / struct / nil} (thorough: additionally every PAIR of fault positions with invocation <=2 x {error, panic}^2); each execution: Build, scope, three attempts at the root service, a second scope, Close; oracle: no panic escapes, an error fault is reachable with errors.As (same pointer), a panic fault is a ConstructorPanicError carrying the value, retries without a pending fault succeed, lifetime / wiring / disposal oracles hold (nothing half-built is cached, nothing successfully built is rebuilt or leaked). API inputs: ~1,000 calls of every exported entry point with nil / typed-nil / zero / unregistered / mismatched / invalid arguments must not panic; Must* helpers panic iff the plain call errs. Schedules: a resolution overlapping Close(scope|provider) whose late instance fails its own Close - the returned error must still satisfy errors.Is(disposed) (bound 2/3). Every cyclic registration set on <=3 services (all digraphs x plain / keyed / group forms) fails Build with an error that errors.As recognises as CircularDependencyError, whichever internal route found the cycle. Error classes: 30 routes through Build / resolution / registration / module wrappers must be recognisable with errors.Is/As. distinct = canonical observation strings.",
 		Assume:      []string{"keys are hashable (the property's precondition)", "a constructor returning a typed nil pointer is accepted as an instance: only 'no panic, consistent retry' is demanded there"},
 		MinOutcomes: 10,
 		Jobs: func(tier string) []mc.Job {
@@ -662,6 +662,19 @@ func init() {
 			for _, sh := range []string{"chain", "diamond", "group", "instruct", "optional", "optional-deep", "multi", "iface", "resobj-err"} {
 				sh := sh
 				jobs = append(jobs, mc.Job{Name: "c15-faults/" + sh, Weight: 3, Run: func(r *mc.Report) { c15Faults(r, sh) }})
+			}
+			// 'circular' is classifiable for EVERY cyclic set, whichever route detected the cycle: all digraphs on
+			// <=3 services x dependency forms (re-using C05's container enumeration, cycle-class clause only)
+			jobs = append(jobs, mc.Job{Name: "c15-circular-class/n2", Run: func(r *mc.Report) {
+				c05OnlyClause = "cycle-wrong-error"
+				c05Containers(r, 2, false, []string{"scoped", "singleton", "transient"}, 0, 1)
+			}})
+			for sh := 0; sh < 4; sh++ {
+				sh := sh
+				jobs = append(jobs, mc.Job{Name: fmt.Sprintf("c15-circular-class/n3#%d", sh), Weight: 4, Run: func(r *mc.Report) {
+					c05OnlyClause = "cycle-wrong-error"
+					c05Containers(r, 3, false, []string{"scoped", "singleton"}, sh, 4)
+				}})
 			}
 			// 'disposed' stays classifiable when the failure has two causes: a resolution overlapping Close
 			// whose late instance also fails its own Close (every schedule within the bound)
